@@ -1586,4 +1586,67 @@ theorem new_refines (lines cols g1 g2 : Int) (hl : 0 ≤ lines) (hc : 0 < cols) 
   · show FramesRel _ 0 [] []
     simp [FramesRel]
 
+/-! ## Reading a concrete buffer as an abstract state -/
+
+/-- The abstract frames of a concrete stack (`d` = depth above the first frame).  Whether the cursor was set
+    when a frame was pushed is not recorded by the code; `none` is the weakest reading. -/
+def absFrames (rb : RB) : Int → List Frame → List AFrame
+  | _, [] => []
+  | d, f :: fs =>
+    { penOnly := f.penOnly, vc := none, xlLine := f.xlLine, xlCol := f.xlCol, clip := absClipRect f.clip,
+      pen := f.pen, masked := absMaskedAt rb (d - 1) } :: absFrames rb (d - 1) fs
+
+/-- `abs : RB → AState`. -/
+def absOf (rb : RB) : AState :=
+  { lines := rb.lines, cols := rb.cols, content := absContent rb, masked := absMasked rb, vc := getCursor rb,
+    xlLine := rb.xlLine, xlCol := rb.xlCol, clip := absClipRect rb.clip, pen := rb.pen,
+    stack := absFrames rb rb.depth rb.stack }
+
+theorem absFrames_rel (rb : RB) : ∀ (fs : List Frame) (d : Int), FramesRel rb d fs (absFrames rb d fs) := by
+  intro fs
+  induction fs with
+  | nil => intro d; simp [absFrames, FramesRel]
+  | cons f fs ih =>
+    intro d
+    unfold absFrames FramesRel
+    exact ⟨⟨rfl, rfl, fun _ _ => rfl, fun _ => ⟨rfl, rfl, fun _ _ => rfl, fun p hp => by cases hp⟩⟩, ih (d - 1)⟩
+
+theorem refines_absOf (rb : RB) : Refines rb (absOf rb) :=
+  ⟨rfl, rfl, fun _ _ => rfl, fun _ _ => rfl, rfl, rfl, rfl, fun _ _ => rfl, rfl, absFrames_rel rb _ _⟩
+
+/-- **`WF` is an invariant of every operation.** -/
+theorem step_wf {rb : RB} (wf : WF rb) (o : Op) : WF (RB.step rb o) := by
+  cases o with
+  | restore => exact restore_wf wf
+  | textAt l c s => exact (step_refines wf (refines_absOf rb) (.textAt l c s) trivial).1
+  | text s => exact (step_refines wf (refines_absOf rb) (.text s) trivial).1
+  | eraseAt l c n => exact (step_refines wf (refines_absOf rb) (.eraseAt l c n) trivial).1
+  | erase n => exact (step_refines wf (refines_absOf rb) (.erase n) trivial).1
+  | eraseTo c => exact (step_refines wf (refines_absOf rb) (.eraseTo c) trivial).1
+  | skipAt l c n => exact (step_refines wf (refines_absOf rb) (.skipAt l c n) trivial).1
+  | skip n => exact (step_refines wf (refines_absOf rb) (.skip n) trivial).1
+  | skipTo c => exact (step_refines wf (refines_absOf rb) (.skipTo c) trivial).1
+  | charAt l c cp => exact (step_refines wf (refines_absOf rb) (.charAt l c cp) trivial).1
+  | char cp => exact (step_refines wf (refines_absOf rb) (.char cp) trivial).1
+  | hlineAt l c1 c2 st caps => exact (step_refines wf (refines_absOf rb) (.hlineAt l c1 c2 st caps) trivial).1
+  | vlineAt l1 l2 c st caps => exact (step_refines wf (refines_absOf rb) (.vlineAt l1 l2 c st caps) trivial).1
+  | clear => exact (step_refines wf (refines_absOf rb) .clear trivial).1
+  | eraserect r => exact (step_refines wf (refines_absOf rb) (.eraserect r) trivial).1
+  | skiprect r => exact (step_refines wf (refines_absOf rb) (.skiprect r) trivial).1
+  | goto l c => exact (step_refines wf (refines_absOf rb) (.goto l c) trivial).1
+  | ungoto => exact (step_refines wf (refines_absOf rb) .ungoto trivial).1
+  | translate d r => exact (step_refines wf (refines_absOf rb) (.translate d r) trivial).1
+  | clip r => exact (step_refines wf (refines_absOf rb) (.clip r) trivial).1
+  | mask r => exact (step_refines wf (refines_absOf rb) (.mask r) trivial).1
+  | setpen p => exact (step_refines wf (refines_absOf rb) (.setpen p) trivial).1
+  | save => exact (step_refines wf (refines_absOf rb) .save trivial).1
+  | savepen => exact (step_refines wf (refines_absOf rb) .savepen trivial).1
+  | reset => exact (step_refines wf (refines_absOf rb) .reset trivial).1
+
+theorem run_wf : ∀ (prog : List Op) {rb : RB}, WF rb → WF (RB.run rb prog) := by
+  intro prog
+  induction prog with
+  | nil => intro rb wf; exact wf
+  | cons o rest ih => intro rb wf; exact ih (step_wf wf o)
+
 end Tickit.RB
